@@ -120,11 +120,23 @@ class UidLog:
                 for u2, sel_step, st in self.fresh_seen.get(key, []):
                     self.count('resurrection_pairs_checked')
                     if u2 == uid and sel_step > end:
-                        rep('uid-resurrected',
+                        # the same structural predicate as stale(): a dump
+                        # by a selection that began before the mailbox of
+                        # that name was replaced, made after the replacement
+                        # had begun, shows the NEW mailbox's UIDs under the
+                        # old UIDVALIDITY - the listed finding, of which
+                        # "UID 1 is back" is one more symptom
+                        old_sel = any(sel_step < r1 and st > r0 for r0, r1
+                                      in self.replaced.get(key[0], []))
+                        rep('uid-denotes-two-messages:stale-selection-of-'
+                            'replaced-mailbox' if old_sel
+                            else 'uid-resurrected',
                             'lineage/validity %r: UID %d was removed (step '
                             '%d) and is listed again by a selection that '
-                            'began at step %d (dump at step %d)'
-                            % (key, uid, end, sel_step, st))
+                            'began at step %d (dump at step %d)%s'
+                            % (key, uid, end, sel_step, st,
+                               ', which predates the replacement of the '
+                               'mailbox' if old_sel else ''))
                         break
         # a delivered message has a UID as soon as any command has looked at
         # the mailbox: every UIDNEXT reported after the delivery must be above
